@@ -3,6 +3,7 @@ package c13
 
 import (
 	"context"
+	"errors"
 	"fmt"
 	"strings"
 
@@ -132,6 +133,16 @@ func oneScript(c *fw.Ctx, key, src string, disabled []string, mustFail bool, arg
 			continue
 		}
 		if err != nil {
+			// The optimizer may refuse a script by reporting the runtime error of one of its constant sub-expressions
+			// (C01's business), e.g. the call of a name the script declared as the constant 5, also where a run would
+			// catch that error. A refusal produces no code, and the compilation did not call the disabled builtin
+			// (checked above), so the builtin was not reached; only a refusal that still treats the declared name as
+			// the missing builtin ("unresolved reference") is the symbol table getting in the script's way.
+			var oe *ugo.OptimizerError
+			if errors.As(err, &oe) && !strings.Contains(err.Error(), "unresolved reference") && v.name != "noopt" {
+				c.Count("refused_by_optimizer_with_a_runtime_error", 1)
+				continue
+			}
 			c.Violation(k, fmt.Sprintf("the script declares the name itself but does not compile (%s): %v", v.name, err), det)
 			return
 		}
